@@ -249,6 +249,14 @@ func (r *Regexp) String() string {
 	return px.ToString2(r, None)
 }
 
+func (r *Regexp) CanSerializeAsString() bool {
+	return true
+}
+
+func (r *Regexp) SerializationString() string {
+	return r.pattern.String()
+}
+
 func (r *Regexp) ToKey(b *bytes.Buffer) {
 	b.WriteByte(1)
 	b.WriteByte(HkRegexp)
